@@ -166,7 +166,8 @@ NoMismatch == mismatch = <<>>
 OffsetInBuffer == ~t.panic => (t.off = (t.vy + t.cy - 1) * g.w + (t.cx - 1) /\ t.off < g.w * TH(g))
 
 \* leg G: replay cases for the Go harness, written while TLC explores (Big, standing for 2^32-1, is written -1).
-\*  "sample": the operation sequence that first reached a distinct state, for a seeded 1/EmitMod of the states;
+\*  "sample": the operation sequence that first reached a distinct state, for a seeded 1/EmitMod of the states
+\*            (and depths: the depth is part of the VIEW);
 \*  "branch": for every distinct state below the depth bound its sequence plus the list of all operations: the
 \*            harness replays sequence \o <<op>> for each of them, i.e. every transition of the explored graph.
 J(v) == IF v = Big THEN -1 ELSE v
@@ -174,13 +175,15 @@ JOp(op) == [j \in 1..Len(op) |-> J(op[j])]
 RECURSIVE SeqOf(_)
 SeqOf(S) == IF S = {} THEN <<>> ELSE LET x == CHOOSE y \in S : TRUE IN <<JOp(x)>> \o SeqOf(S \ {x})
 OpsSeq == SeqOf(Ops)
-RECURSIVE Chk(_, _)
-Chk(sc, i) == IF i > Len(sc) THEN 0
-              ELSE (Chk(sc, i + 1) * 31 + J(sc[i][1]) * 7 + J(sc[i][2]) * 3 + (IF Len(sc[i]) > 2 THEN J(sc[i][3]) ELSE 0) + 11) % 65521
+\* which states are sampled depends on the state (not on the path that happened to reach it first)
+RECURSIVE Sum(_, _)
+Sum(sq, i) == IF i > Len(sq) THEN 0 ELSE ((sq[i] % 251) * ((i % 13) + 1) + Sum(sq, i + 1)) % 65521
+StateChk == (Sum(t.data, 1) * 7 + t.cx * 3 + t.cy * 5 + t.vy * 11 + t.st * 13 + nops * 17
+             + g.w * 19 + g.h * 23 + g.sb * 29 + g.tab * 31) % 65521
 CaseRec(br) == [w |-> g.w, h |-> g.h, sb |-> g.sb, tab |-> g.tab, ops |-> [i \in 1..Len(script) |-> JOp(script[i])], br |-> br]
 EmitCase ==
   CASE EmitMode = "sample" ->
-         (nops >= 1 /\ (Chk(script, 1) + atoi(IOEnv.EMITSEED)) % EmitMod = 0) =>
+         (nops >= 1 /\ (StateChk + atoi(IOEnv.EMITSEED)) % EmitMod = 0) =>
             CSVWrite("%1$s", <<ToJson(CaseRec(<<>>))>>, IOEnv.CASES)
     [] EmitMode = "branch" ->
          (nops < MaxOps /\ ~t.panic /\ mismatch = <<>>) => CSVWrite("%1$s", <<ToJson(CaseRec(OpsSeq))>>, IOEnv.CASES)
